@@ -59,9 +59,14 @@ def rider_pkgmanager(ctx):
     sub = ctx.sub("pkgmanager")
     mc = sub.model_check("MCPkgManager", "MCPkgManager_foreign.cfg", workers=4, timeout=600)
     scs = [{"id": "%s-pkgm-%07d" % (PID, i), "hist": h} for i, h in sub.sample_lines(mc["emitted_file"], 800 if ctx.quick else 6000, mc["emitted"])]
+    # four digests: the foreign revision is listed first and the package's own history exceeds the limit (history GC runs)
+    mc4 = sub.model_check("MCPkgManager", "MCPkgManager_foreign4.cfg", sub="mc4", workers=4, timeout=600)
+    scs += [{"id": "%s-pkgm4-%07d" % (PID, i), "hist": h}
+            for i, h in sub.sample_lines_stratified(mc4["emitted_file"], 600 if ctx.quick else 10 ** 6, mc4["emitted"])]
     s, n = c14.drive_and_judge(sub, scs, sweep=2)
     sub.violations = [v for v in sub.violations if v["formula"].startswith("Foreign")]
-    return sub, dict(states=mc["states"], transitions=mc["transitions"], runs=s["runs"], events=n, samples=s["samples"][:1])
+    return sub, dict(states=mc["states"] + mc4["states"], transitions=mc["transitions"] + mc4["transitions"], runs=s["runs"], events=n,
+                     samples=s["samples"][:1])
 
 
 def run(ctx):
